@@ -103,8 +103,13 @@ COMPS = {
 class LineFile(FileCollector):
     """A file collector whose collection at timestep t consists of plan[t mod len(plan)] self-identifying lines."""
 
-    def __init__(self, id, model, filename, plan, **kw):
-        super().__init__(id, model, filename, **kw)
+    def __init__(self, id, model, filename, plan, positional=False, **kw):
+        if positional:
+            # forwards the scheduling arguments by position, as ECAgent's own collectors do
+            super().__init__(id, model, filename, kw.pop("priority", -1), kw.pop("frequency", 1), kw.pop("start", 0),
+                             kw.pop("end", sys.maxsize), **kw)
+        else:
+            super().__init__(id, model, filename, **kw)
         self.plan = plan
 
     def collect(self):
@@ -146,8 +151,8 @@ def _run(prog, tmp):
             m.systems.add_system(c)
             acs[a["name"]] = c
         for f in prog["fcs"]:
-            c = LineFile(f["name"], m, os.path.join(tmp, f["name"] + ".txt"), f["plan"], frequency=f["freq"], start=f["start"],
-                         end=_end(f["end"]), write_count=f["wc"])
+            c = LineFile(f["name"], m, os.path.join(tmp, f["name"] + ".txt"), f["plan"], positional=(f["wc"] + f["freq"]) % 2 == 1,
+                         frequency=f["freq"], start=f["start"], end=_end(f["end"]), write_count=f["wc"])
             m.systems.add_system(c)
             fcs[f["name"]] = c
 
